@@ -668,6 +668,10 @@ def gen_tasks(tier, seed):
          ("alpha", "def alpha(a: Qint[4], b: Qint[4]) -> bool:\n    return a > b")],
         [("solo", "def solo(a: bool, b: bool) -> bool:\n    return a or b")],
         [("sel", "def sel(a: bool, b: bool) -> bool:\n    return a or b")],
+        # expressions with complementary terms under a Xor / Not (sympy's to_anf is wrong on ~(a ^ ~a))
+        [("Zed", "def Zed(a: bool, b: bool, c: bool) -> bool:\n    t = (((not a) and b) and c)\n    return (not (c ^ (not c)))"),
+         ("_under", "def _under(a: bool, b: bool, c: bool, d: bool, e: bool) -> bool:\n    y = e\n    u = (d and a and (not d))\n    return (((a == (not a))) and (u or y)) or ((not u) and a)")],
+        [("cmpl", "def cmpl(a: bool, e: bool) -> bool:\n    return (a == (not a)) and e or (a != (not a)) and not e")],
         [("pick", "def pick(x: bool, y: bool, z: bool) -> bool:\n    return x or (y and not z)"),
          ("aaa", "def aaa(x: bool, y: bool) -> bool:\n    return x ^ y")],
     ]
